@@ -383,11 +383,18 @@ func (s *script) name() string { return fmt.Sprintf("node-%d", s.idx) }
 // wait returns the call the node was asked in, and nil when the node answers with content, or the
 // error it answers with.
 func (s *script) wait(ctx context.Context) (*Input, error) {
-	k := s.cur.Load()
+	// which call of the sequence the request belongs to travels in the caller's context (a call
+	// may return, and the next one start, before every goroutine of the strategy has asked its node)
+	k, ok := ctx.Value(callKey{}).(int32)
+	if !ok {
+		k = s.cur.Load()
+	}
 	in := s.seq[k]
 	s.calls[k].Add(1)
 	return in, s.wait1(ctx, in)
 }
+
+type callKey struct{}
 
 func (s *script) wait1(ctx context.Context, in *Input) error {
 	p := in.Provs[s.idx]
@@ -550,7 +557,7 @@ func (r *rec) done(id uint64, note string) {
 
 // newInvoker builds the real service once (public constructor, the scripted nodes as providers)
 // and returns the function that makes one call on it.
-func newInvoker(ctx context.Context, in *Input, scripts []*script, ct *mocks.ChainTime) (invoke func(in *Input) Observed, bad *Observed) {
+func newInvoker(ctx context.Context, in *Input, scripts []*script, ct *mocks.ChainTime) (invoke func(ctx context.Context, in *Input) Observed, bad *Observed) {
 	level := zerolog.Disabled
 	if in.Trace {
 		level = zerolog.TraceLevel
@@ -561,7 +568,7 @@ func newInvoker(ctx context.Context, in *Input, scripts []*script, ct *mocks.Cha
 	for _, e := range in.Cache {
 		cache[rootOf(e[0])] = phase0.Slot(e[1])
 	}
-	fail := func(err error) (func(in *Input) Observed, *Observed) {
+	fail := func(err error) (func(ctx context.Context, in *Input) Observed, *Observed) {
 		return nil, &Observed{Res: "panic", Note: "constructor: " + err.Error()}
 	}
 	// Input.Warm: the service instance first serves another request (same options, every node
@@ -577,7 +584,7 @@ func newInvoker(ctx context.Context, in *Input, scripts []*script, ct *mocks.Cha
 		synctest.Wait()
 		for _, s := range scripts {
 			s.warm.Store(false)
-			s.calls[s.cur.Load()].Store(0)
+			s.calls[s.cur.Load()].Store(0) // the warm-up request is made while its call is the current one
 		}
 	}
 
@@ -600,7 +607,7 @@ func newInvoker(ctx context.Context, in *Input, scripts []*script, ct *mocks.Cha
 		if err != nil {
 			return fail(err)
 		}
-		invoke = func(in *Input) Observed {
+		invoke = func(ctx context.Context, in *Input) Observed {
 			var r rec
 			warmup(in, func() {
 				_, _ = svc.AttestationData(ctx, &api.AttestationDataOpts{Slot: phase0.Slot(in.Slot), CommitteeIndex: 3})
@@ -626,7 +633,7 @@ func newInvoker(ctx context.Context, in *Input, scripts []*script, ct *mocks.Cha
 		if err != nil {
 			return fail(err)
 		}
-		invoke = func(in *Input) Observed {
+		invoke = func(ctx context.Context, in *Input) Observed {
 			var r rec
 			warmup(in, func() {
 				_, _ = svc.AggregateAttestation(ctx, &api.AggregateAttestationOpts{Slot: phase0.Slot(in.Slot), AttestationDataRoot: rootOf(9)})
@@ -658,7 +665,7 @@ func newInvoker(ctx context.Context, in *Input, scripts []*script, ct *mocks.Cha
 		if err != nil {
 			return fail(err)
 		}
-		invoke = func(in *Input) Observed {
+		invoke = func(ctx context.Context, in *Input) Observed {
 			var r rec
 			warmup(in, func() {
 				_, _ = svc.Proposal(ctx, &api.ProposalOpts{Slot: phase0.Slot(in.Slot), Graffiti: [32]byte{'v', 'o', 'u', 'c', 'h'}})
@@ -690,7 +697,7 @@ func newInvoker(ctx context.Context, in *Input, scripts []*script, ct *mocks.Cha
 		if err != nil {
 			return fail(err)
 		}
-		invoke = func(in *Input) Observed {
+		invoke = func(ctx context.Context, in *Input) Observed {
 			var r rec
 			warmup(in, func() {
 				_, _ = svc.SyncCommitteeContribution(ctx, &api.SyncCommitteeContributionOpts{Slot: phase0.Slot(in.Slot), SubcommitteeIndex: 1, BeaconBlockRoot: rootOf(77)})
@@ -720,7 +727,7 @@ func newInvoker(ctx context.Context, in *Input, scripts []*script, ct *mocks.Cha
 		if err != nil {
 			return fail(err)
 		}
-		invoke = func(in *Input) Observed {
+		invoke = func(ctx context.Context, in *Input) Observed {
 			var r rec
 			warmup(in, func() { _, _ = svc.BeaconBlockRoot(ctx, &api.BeaconBlockRootOpts{Block: "head"}) })
 			r.start = time.Now()
@@ -743,7 +750,7 @@ func newInvoker(ctx context.Context, in *Input, scripts []*script, ct *mocks.Cha
 		if err != nil {
 			return fail(err)
 		}
-		invoke = func(in *Input) Observed {
+		invoke = func(ctx context.Context, in *Input) Observed {
 			var r rec
 			warmup(in, func() { _, _ = svc.BeaconBlockHeader(ctx, &api.BeaconBlockHeaderOpts{Block: "head"}) })
 			r.start = time.Now()
@@ -760,7 +767,7 @@ func newInvoker(ctx context.Context, in *Input, scripts []*script, ct *mocks.Cha
 		if err != nil {
 			return fail(err)
 		}
-		invoke = func(in *Input) Observed {
+		invoke = func(ctx context.Context, in *Input) Observed {
 			var r rec
 			warmup(in, func() { _, _ = svc.SignedBeaconBlock(ctx, &api.SignedBeaconBlockOpts{Block: "head"}) })
 			r.start = time.Now()
@@ -851,7 +858,7 @@ func runCase(t *testing.T, in *Input) (all []Observed) {
 				s.cur.Store(int32(k))
 			}
 			ct.SetSlot(uint64(int64(c.Slot) + c.NowOff))
-			all[k] = invoke(c)
+			all[k] = invoke(context.WithValue(ctx, callKey{}, int32(k)), c)
 			made = k + 1
 			for _, p := range c.Provs {
 				if d := time.Duration(p.T); d > rest {
@@ -1537,7 +1544,10 @@ func TestC07(t *testing.T) {
 		in.Tags = append(in.Tags, "corpus")
 		ins = append(ins, in)
 	}
-	rng := NewRand(Seed())
+	// NewRand(k+1) is NewRand(k) advanced by one draw (the state is seed*gamma and every draw adds
+	// gamma), so with one Fork per input "another seed" would be the same inputs shifted by one.
+	// A fork of the seeded generator starts from a hashed state instead: seeds are unrelated.
+	rng := NewRand(Seed()).Fork()
 	for i := 0; i < n; i++ {
 		ins = append(ins, gen(rng.Fork()))
 	}
